@@ -18,7 +18,7 @@ from ..cfg import cfg_of
 from ..flow import Sym, fpaths, attr_effects
 from ..model import FuncInfo, attr_chain, norm, walk_no_nested
 from ..report import Checker
-from .common import must_attempt
+from .common import must_attempt, shutdown_hook_check
 
 CHAIN_HOOKS = ('before_upstream_connection', 'handle_client_request', 'handle_upstream_chunk', 'handle_client_data', 'on_access_log')
 WIRE_ATTRS = ('method', 'path', 'version', 'code', 'reason', 'host')
@@ -208,15 +208,7 @@ def run(ch: Checker) -> None:
                  'the rejection response is not exactly what the plugin chose, or the connection is not closed: %s' % detail)
 
     # ---------------- C09.5
-    sd = prog.own_method('HttpProtocolHandler', 'shutdown')
-    gsd = cfg_of(sd, prog)
-    n, cex = must_attempt(gsd, lambda a: any(isinstance(c, ast.Call) and attr_chain(c.func) == 'self.plugin.on_client_connection_close' for c in walk_no_nested(a)),
-                          lambda p: dict(p.facts()).get('self.plugin') is not False,
-                          allowed_raisers=('self._flush',))
-    ch.check(cex is None and n > 0, 'C09.5', sd, 'plugin.on_client_connection_close()',
-             'attempted on all %d path(s) (exception edges included; self._flush() exempt: it handles BrokenPipeError itself and no other OSError could be provoked)' % n,
-             'the connection-close hook of the protocol plugin (access log, on_upstream_connection_close, upstream release) is skipped when %s: the enclosing handler swallows the error '
-             'and the hook never runs' % (cex[0] if cex else '?'), witness=cex[1] if cex else None)
+    shutdown_hook_check(ch, 'C09.5')
     occ = prog.own_method('HttpProxyPlugin', 'on_client_connection_close')
     gocc = cfg_of(occ, prog, exc_edges=False)
     for hookname in ('on_access_log', 'on_upstream_connection_close'):
